@@ -15,7 +15,7 @@ esac
 cd /verif
 for prop in "$@"; do
   echo "=== $NAME $prop"
-  VERIF_REPO="$D" ./check "$prop" --tier quick | grep -E "VIOLATION|KNOWN|OK property|oracle |correspondence|proof|consts" | cut -c1-300
+  VERIF_REPO="$D" ./check "$prop" --tier ${TIER:-quick} | grep -E "VIOLATION|KNOWN|OK property|oracle |correspondence|proof|consts" | cut -c1-300
 done
 H=/tmp/verif_harness_$(printf %s "$D" | sha1sum | cut -c1-10)
 if [ -z "$KEEP" ]; then rm -rf "/tmp/selftest_$NAME"; rm -rf "/tmp/verif_harness_$(printf %s "/tmp/selftest_$NAME" | sha1sum | cut -c1-10)"; fi
